@@ -59,3 +59,11 @@ claim("C29",
       "The fault point is the solver variable: index k (0..31) of the failing Write call during cbe/cte Marshaler.Marshal and of the failing Read call (non-EOF error, optionally with partial data) during cbe.Decoder.Decode and cte.Decoder.Decode, over document templates with symbolic payload; z3 shows the entry returns a non-nil error whenever the fault was hit (and nil otherwise) and no panic escapes.",
       "The marshaler's reflection walk (iterator.Session.Init, RootObjectIterator.Iterate) is replaced by a template event source and cte.ParseDocument by an accepting stub; Marshal wrappers, encoders, writers, readers and the CTE copy loop are the real code. Unmarshaler wrappers (builder sessions) not covered.",
       "DESIGN.md §5 C29")
+claim("C18",
+      "Pointer-held big numbers with symbolic words/sign (big.Int 1..3 words; apd.Decimal with symbolic coefficient, sign, exponent) are passed through the rules validator and the real CBE encoder; z3 shows sign and every word are unchanged afterwards.",
+      "Encoder event boundary only (the marshaler's reflection walk is outside reach); the CTE encoder's decimal text conversion of big numbers is symbolic long division and outside reach.",
+      "DESIGN.md §5 C18")
+claim("C19",
+      "The builder's numeric conversion kernels (setIntFrom*/setUintFrom*/setFloatFrom*/setBigIntFromUint/setPBigIntFromUint, conversions.UintToBigInt, BuilderEventReceiver.OnNegativeInt) run on fully symbolic 64-bit integers, float bit patterns and 2-word big.Ints against every integer/float destination width; z3 shows that whenever no error is raised the stored value equals the source's mathematical value (bit-level oracle).",
+      "Destinations are written through an emulated reflect.Value (SetInt/SetUint/SetFloat truncate/round like package reflect; validated by native replay). big.Float, DFloat and apd.Decimal sources go through decimal text and are outside reach.",
+      "DESIGN.md §5 C19")
